@@ -164,7 +164,7 @@ func TestVerif_C04_Schedules(t *testing.T) {
 		"reader before Write returns, beta = delivered before Write returns, gamma = after WritePacket returned, delta = plus duplicates and unsolicited " +
 		"responses; tids from a small pool, re-used after completion; oracle = happens-before assertion + porcupine (per-tid set model) + exactly-once; " +
 		"distinct = per-request event-order signature x schedule")
-	n := m.N(1200, 20000)
+	n := m.N(1200, 200000)
 	m.Require("evaluations", int64(n))
 	m.Require("alpha_decoded_inside_write", int64(n))
 	m.Require("porcupine_ok_histories", int64(n*9/10))
@@ -452,7 +452,7 @@ func TestVerif_C04_Stress(t *testing.T) {
 	defer m.Finish(t)
 	m.Rule("stress: free-running writer and reader goroutines, the transport answers every request immediately from inside Write without waiting; " +
 		"every answer must be matched exactly once; run under the race detector; distinct = (requests, matched) bucket")
-	n := m.N(100, 5000)
+	n := m.N(100, 20000)
 	m.Require("answers_matched", int64(n*10))
 	mon.Parallel(n, func(w, i int) {
 		r := m.Rand("stress", i)
